@@ -26,6 +26,7 @@ var c10Tpls = map[string]string{
 	"T3":       "{% extends 'tb' %}{% block a %}T3a x={{ x }}|{{ probe('x') }}{% endblock %}",
 	"T4":       "T4[{% block a %}t4a x={{ x }}{% endblock %}|{% block b %}t4b{% endblock %}]",
 	"hostbase": "HB({% block a %}hba{% endblock %}/{% block b %}hbb{% endblock %})",
+	"T6":       "T6[{% block a %}t6a{% endblock %}|{% block n %}t6n x={{ x }}{% endblock %}]",
 	"T5":       "{% set x = 'tx' %}{% set fresh = 'f' %}T5[{% block a %}t5a x={{ x }}{% endblock %}|{% block b %}t5b{% endblock %}]",
 }
 
@@ -54,7 +55,9 @@ func (v c10Vars) copy() c10Vars {
 // stmt kinds: include of T0..T4 (0..4); embed of T3 / T4 / tb with overrides {}, {a}, {a,b} (5..13);
 // 14: embed T4 with {a} then embed T4 with {} ; 15: embed tb with {a,b} then include T4;
 // 16..18: embed of T5 (assigns x and a fresh name at its root) with overrides {}, {a}, {a,b}
-const c10Stmts = 19
+// 19: embed of T6 whose override of a defines a nested block n, which also replaces the target's own n;
+// 20: the same with a nested block the target does not have
+const c10Stmts = 21
 
 // mode: 0 plain, 1 with, 2 only, 3 with only; hashKind: 0 {x,w}, 1 {w}
 func c10Args(mode, hashKind int) string {
@@ -164,6 +167,12 @@ func c10Stmt(k, mode, hashKind int, site c10Vars) (src, out string) {
 	case k < 14:
 		t, ov := embTargets[(k-5)/3], (k-5)%3
 		return c10EmbedSrc(t, ov, args), c10Embed(t, ov, v)
+	case k == 19:
+		return "{% embed 'T6'" + args + " %}{% block a %}ova<{% block n %}ovn x={{ x }}{% endblock %}>{% endblock %}{% endembed %}",
+			"T6[ova<ovn x=" + v.get("x") + ">|ovn x=" + v.get("x") + "]"
+	case k == 20:
+		return "{% embed 'T6'" + args + " %}{% block a %}ova<{% block z %}ovz x={{ x }}{% endblock %}>{% endblock %}{% endembed %}",
+			"T6[ova<ovz x=" + v.get("x") + ">|t6n x=" + v.get("x") + "]"
 	case k >= 16:
 		return c10EmbedSrc("T5", k-16, args), c10Embed("T5", k-16, v)
 	case k == 14:
@@ -184,7 +193,8 @@ func c10AfterExp(site c10Vars) string {
 }
 
 // hosts: 0 top, x unset; 1 top, x set; 2 loop with loop variable x; 3 loop with loop variable q, x set before;
-// 4 block body of an extending child, x set; 5 the same, x unset; 6 macro body with parameter x
+// 4 block body of an extending child, x set; 5 the same, x unset; 6 macro body with parameter x;
+// 7 loop whose variable x shadows a set outer x, first with null then with a string
 func c10Build(host, k, mode, hashKind int) (tpls map[string]string, ctx map[string]stick.Value, want string) {
 	tpls = map[string]string{}
 	for n, s := range c10Tpls {
@@ -204,15 +214,21 @@ func c10Build(host, k, mode, hashKind int) (tpls map[string]string, ctx map[stri
 		s, o := c10Stmt(k, mode, hashKind, site)
 		tpls["main"] = pre + "[" + s + "]" + c10After
 		want = "[" + o + "]" + c10AfterExp(site)
-	case 2, 3:
+	case 2, 3, 7:
 		site := base.copy()
 		pre, lv := "", "x"
 		if host == 3 {
 			pre, lv = "{% set x = 'hx' %}", "q"
 			site["x"] = "hx"
 		}
+		els, elsSrc := []string{"l1", "l2"}, "['l1', 'l2']"
+		if host == 7 { // the loop variable shadows a set outer variable, first with null
+			pre = "{% set x = 'hx' %}"
+			site["x"] = "hx"
+			els, elsSrc = []string{"", "l2"}, "[null, 'l2']"
+		}
 		body := ""
-		for _, el := range []string{"l1", "l2"} {
+		for _, el := range els {
 			it := site.copy()
 			it[lv] = el
 			it["loop"] = "L"
@@ -220,7 +236,7 @@ func c10Build(host, k, mode, hashKind int) (tpls map[string]string, ctx map[stri
 			body = s
 			want += "[" + o + "]" + c10AfterExp(it)
 		}
-		tpls["main"] = pre + "{% for " + lv + " in ['l1', 'l2'] %}[" + body + "]" + c10After + "{% endfor %}" + c10After
+		tpls["main"] = pre + "{% for " + lv + " in " + elsSrc + " %}[" + body + "]" + c10After + "{% endfor %}" + c10After
 		want += c10AfterExp(site)
 	case 4, 5:
 		site := base.copy()
@@ -242,7 +258,7 @@ func c10Build(host, k, mode, hashKind int) (tpls map[string]string, ctx map[stri
 	return
 }
 
-const c10Hosts = 7
+const c10Hosts = 8
 
 // Nested calls: the statement under test sits inside a template that is itself included (wrapper 0) or
 // inside the override block of an embed (wrapper 1), called with its own mode and with-hash. The inner call
@@ -321,7 +337,7 @@ func c10Run(c core.Case) core.Result {
 
 func c10Levels(tier string) []core.Level {
 	return []core.Level{
-		{Name: "full product: 7 call sites / host states x 19 include/embed statements x {plain, with, only, with only} x 3 with-hashes (two literals and a host variable holding a Go map, which must be unchanged afterwards)", Gen: func(emit func(core.Case)) {
+		{Name: "full product: 8 call sites / host states x 21 include/embed statements x {plain, with, only, with only} x 3 with-hashes (two literals and a host variable holding a Go map, which must be unchanged afterwards)", Gen: func(emit func(core.Case)) {
 			for host := 0; host < c10Hosts; host++ {
 				for k := 0; k < c10Stmts; k++ {
 					for mode := 0; mode < 4; mode++ {
@@ -335,7 +351,7 @@ func c10Levels(tier string) []core.Level {
 				}
 			}
 		}},
-		{Name: "nested calls: {top level with x unset / set} x {inside an included template, inside the override block of an embed} x outer {plain, with, only, with only} x 3 with-hashes x 19 inner statements x inner modes x with-hashes", Gen: func(emit func(core.Case)) {
+		{Name: "nested calls: {top level with x unset / set} x {inside an included template, inside the override block of an embed} x outer {plain, with, only, with only} x 3 with-hashes x 21 inner statements x inner modes x with-hashes", Gen: func(emit func(core.Case)) {
 			modes := func(f func(m, hk int)) {
 				for m := 0; m < 4; m++ {
 					for hk := 0; hk < 3; hk++ {
@@ -368,7 +384,7 @@ func init() {
 	core.Register(&core.Check{
 		ID:       "C10",
 		Category: "exploration",
-		Rule: "full product of: call site / host state (top level with x unset or set; loop body with the loop variable named x or another name; block body of an extending child whose blocks are named like the target's, x set or unset; macro body with parameter x) x statement (include of 5 targets: printing x,y,w with definedness, setting x, setting a fresh name, extending a base, defining blocks named like the host's; embed of 4 targets (one assigning variables at its root) with overrides {}, {a}, {a,b}; the same target embedded twice with different overrides; embed followed by include) x {plain, with, only, with only} x 3 with-hashes (two literals and a host variable holding a Go map, which must be unchanged afterwards); the host prints x and the definedness of the fresh name afterwards. " +
+		Rule: "full product of: call site / host state (top level with x unset or set; loop body with the loop variable named x or another name, or shadowing a set outer x with null; block body of an extending child whose blocks are named like the target's, x set or unset; macro body with parameter x) x statement (include of 5 targets: printing x,y,w with definedness, setting x, setting a fresh name, extending a base, defining blocks named like the host's; embed of 4 targets (one assigning variables at its root) with overrides {}, {a}, {a,b}; embed whose overriding block defines a nested block (present in / absent from the target); the same target embedded twice with different overrides; embed followed by include) x {plain, with, only, with only} x 3 with-hashes (two literals and a host variable holding a Go map, which must be unchanged afterwards); the host prints x and the definedness of the fresh name afterwards. " +
 			"A second level nests every statement inside an included template or inside the override block of an embed, each called with its own mode and with-hash (the inner call site sees what the outer call made visible). Reference: visible variables = call-site variables plus with-hash, or with-hash only; no write-back; overrides per embed only; host blocks irrelevant. distinct = distinct configuration; non-trivial = all",
 		Assumptions: []string{"inside a macro body only the parameter is at the call site (stick's macro scope also exposes outer variables; not claimed)"},
 		Levels:      c10Levels,
